@@ -1849,4 +1849,117 @@ theorem rx_event_iff {p p' : Peripheral} {t : Telegram} {ev : Option PEvent} (h 
   all_goals simp_all [acceptable, dataOkStatus]
 
 
+/-- Properties of a peripheral that survive declines are preserved along `DecSlot`. -/
+theorem decSlot_pres {fp : FdlParams} {op : OpState} (J : Peripheral → Prop)
+    (hstep : ∀ p, J p → TxSpec fp op p (.decline { p with retry := 0 } none) → J { p with retry := 0 })
+    {x y : Option (Option Peripheral)} (h : DecSlot fp op x y) :
+    ∀ p, x = some (some p) → J p → ∃ p', y = some (some p') ∧ J p' := by
+  induction h with
+  | refl x => intro p hx hJ; exact ⟨p, hx, hJ⟩
+  | step p0 y ht _ ih =>
+    intro p hx hJ
+    simp only [Option.some.injEq] at hx
+    subst hx
+    exact ih _ rfl (hstep _ hJ ht)
+
+/-- Transfer of a per-slot invariant from `m` to a master that differs by declines. -/
+theorem declined_pres {fp : FdlParams} {m m' : Master} (hD : Declined fp m m') (J : Nat → Peripheral → Prop)
+    (hstep : ∀ i p, J i p → TxSpec fp m.op p (.decline { p with retry := 0 } none) → J i { p with retry := 0 })
+    (hJ : ∀ (i : Nat) (p : Peripheral), m.slots[i]? = some (some p) → J i p) :
+    ∀ (i : Nat) (p' : Peripheral), m'.slots[i]? = some (some p') → J i p' := by
+  intro i p' hp'
+  obtain ⟨p, hp, _⟩ := decSlot_back (hD.slot i) hp'
+  obtain ⟨p'', hp'', hJ''⟩ := decSlot_pres (J i) (hstep i) (hD.slot i) p hp (hJ i p hp)
+  rw [hp'] at hp''
+  simp only [Option.some.injEq] at hp''
+  subst hp''
+  exact hJ''
+
+/-- Per-slot invariant after replacing the peripheral of slot `i`. -/
+theorem set_pres {slots : List (Option Peripheral)} {i : Nat} {q : Peripheral} (J J' : Nat → Peripheral → Prop)
+    (hJ : ∀ (j : Nat) (p : Peripheral), slots[j]? = some (some p) → J j p)
+    (hi : J' i q) (hother : ∀ j p, j ≠ i → J j p → J' j p) :
+    ∀ (j : Nat) (p : Peripheral), (slots.set i (some q))[j]? = some (some p) → J' j p := by
+  intro j p hj
+  rw [List.getElem?_set] at hj
+  by_cases hij : i = j
+  · subst hij
+    by_cases hl : i < slots.length
+    · simp only [hl, if_true, Option.some.injEq] at hj; subst hj; exact hi
+    · simp [hl] at hj
+  · simp only [hij, if_false] at hj
+    exact hother j p (fun h => hij h.symm) (hJ j p hj)
+
+theorem upd_same (g : G) (i : Nat) (f : SG → SG) : g.upd i f i = f (g.sg i) := by simp [G.upd]
+theorem upd_other (g : G) {i j : Nat} (f : SG → SG) (h : j ≠ i) : g.upd i f j = g.sg j := by simp [G.upd, h]
+
+
+/-- The four shapes of a `tx` step (`tx_elim` as a disjunction). -/
+inductive TxForm (fp : FdlParams) (g : G) (now : Int) (hp : Bool) : G → Prop
+  | gc : hp = false → gcDue fp now g.m.lastGc = some true → timeB now →
+      TxForm fp g now hp { g.polled now { g.m with lastGc := some now, lastEvents := {} } with
+          out := none, o := .gc (gcHeader fp) [0x00, 0x00] }
+  | idle (m' : Master) : Declined fp g.m m' → MInv fp m' → m'.lastEvents.peripheral = none →
+      (hp = true ∨ gcDue fp now g.m.lastGc = some false) →
+      TxForm fp g now hp { g.polled now m' with out := none, o := .idle }
+  | send (m1 : Master) (i : Nat) (p p' : Peripheral) (h : Header) (pdu : Bytes) :
+      Declined fp g.m m1 → MInv fp m1 → m1.cur = some (i, p) →
+      TxSpec fp .operate p (.send p' h pdu) → (hp = true ∨ gcDue fp now g.m.lastGc = some false) →
+      TxForm fp g now hp { g.polled now { m1 with slots := m1.slots.set i (some p'), lastEvents := {} } with
+          out := some p.address, o := .sent i h pdu, sg := g.upd i (sgSend h p') }
+  | off (m1 : Master) (index i : Nat) (p : Peripheral) :
+      Declined fp g.m m1 → MInv fp m1 → m1.cycle = .dx index →
+      curSlot m1.slots index = some (i, p) → fp.maxRetry < p.retry →
+      (hp = true ∨ gcDue fp now g.m.lastGc = some false) →
+      TxForm fp g now hp
+        { g.polled now (afterDecline m1 index i p { p with state := .offline, fcb := .first, retry := 0 } (some .offline)) with
+          out := none, o := .idle, sg := g.upd i sgOffline,
+          produced := g.produced ++ [{ index := i, address := p.address, ev := .offline }] }
+
+theorem tx_form {fp : FdlParams} (hfp : FpOk fp) {g g' : G} (hI : Inv fp g) {now : Int} {hp : Bool}
+    (h : gstep fp g (.tx now hp) = .ok g') : TxForm fp g now hp g' :=
+  tx_elim hfp hI h (TxForm fp g now hp) (fun a b c => .gc a b c) (fun m' a b c d => .idle m' a b c d)
+    (fun m1 i p p' h pdu a b c d e => .send m1 i p p' h pdu a b c d e)
+    (fun m1 index i p a b c d e f => .off m1 index i p a b c d e f)
+
+
+/-! ## A concrete configuration for the non-vacuity examples -/
+namespace Ex
+
+def fp : FdlParams := { address := 2, slotUs := 5208, maxRetry := 1, minTsdr := 11, watchdog := some (1, 10) }
+def opts : Options :=
+  { ident := 0x80b1, sync := false, freeze := true, groups := 3, userPrm := some [1, 2, 3], config := some [0x11, 0x21] }
+/-- Peripheral #7 with one input byte, two output bytes and a 16-byte diagnostics buffer. -/
+def p7 : Peripheral := Peripheral.new 7 opts [0] [0, 0] 16
+/-- A sparse storage: slot 0 empty, the peripheral in slot 1. -/
+def slots : List (Option Peripheral) := [none, some p7]
+
+theorem fp_ok : FpOk fp := ⟨by decide, by decide, by decide, by decide⟩
+
+theorem init_ok : InitOk fp slots where
+  len := by decide
+  fresh := by
+    intro i p hi
+    have hp : p = p7 := by
+      match i, hi with
+      | 1, hi => simpa [slots] using hi.symm
+    subst hp
+    exact ⟨pinv_new fp 7 opts [0] [0, 0] 16 (by intro up h; simp [opts] at h; subst h; decide)
+      (by intro c h; simp [opts] at h; subst h; decide) (by decide) (by decide), rfl, rfl, rfl, rfl, rfl⟩
+
+def diagReply (b0 b1 : UInt8) : Telegram :=
+  .data ⟨2, 7, some 62, some 60, .response .slave .dataLow⟩ [b0, b1, 0, 2, 0x80, 0xb1]
+def dxReply (bs : Bytes) : Telegram := .data ⟨2, 7, none, none, .response .slave .dataLow⟩ bs
+
+/-- Global control, probe, Online, Set_Prm, Chk_Cfg, readiness confirmed: the peripheral is in
+`PreDataExchange` afterwards. -/
+def bringUp : List Op :=
+  [.tx 1000 false, .take, .tx 2000 false, .take, .reply 7 (diagReply 0x02 0x05), .take,
+   .tx 3000 false, .take, .tx 4000 false, .take, .reply 7 .sc, .take,
+   .tx 5000 false, .take, .tx 6000 false, .take, .reply 7 .sc, .take,
+   .tx 7000 false, .take, .tx 8000 false, .take, .reply 7 (diagReply 0x00 0x04), .take,
+   .tx 9000 false, .take]
+
+end Ex
+
 end PV.Dp
